@@ -14,6 +14,8 @@ def key_of(clause, label, prog, tr, l):
         return "obs:handler_running_after_run_ended:engine_error_without_terminal_event"
     if clause == "handler_running_after_run_ended" and r.get("aborted_during_terminal_write"):
         return "obs:handler_running_after_run_ended:idle_release_aborts_the_loop_inside_the_status_write_backoff"
+    if clause in ("handler_running_after_run_ended", "status_does_not_match_outcome") and r.get("cancel_of_released_run"):
+        return "obs:%s:cancel_of_idle_released_run_is_dropped" % clause
     return "obs:" + clause
 
 
